@@ -141,6 +141,48 @@ fn shape(r: &mut Rng) -> Shape {
     }
 }
 
+/// Message-driven loops: a spawned server recurses with `^` once per received message (the nilary
+/// server-loop idiom `#{ !#'int, ^ }` and its stateful variants); a pump function sends N messages.
+fn server_shape(r: &mut Rng) -> (&'static str, Box<dyn Fn(u64) -> String>) {
+    let k = r.range(1, 9);
+    let pump = |n: u64| format!("pump = #'int {{ | =0 => 0 | =n => {{ n srv, [n, 1] __integer_subtract__ ^ }} }}, {n} pump");
+    match r.below(8) {
+        0 => ("server-nilary", Box::new(move |n| format!("srv = @#{{ !#'int, ^ }}, {}", pump(n)))),
+        1 => ("server-nilary-binds", Box::new(move |n| format!("srv = @#{{ !#'int =v, [v, {k}] __integer_add__, ^ }}, {}", pump(n)))),
+        2 => ("server-nilary-block", Box::new(move |n| format!("srv = @#{{ !#'int {{ | =0 => Ok | ~ }}, ^ }}, {}", pump(n)))),
+        3 => ("server-nilary-binary", Box::new(move |n| format!("srv = @#{{ !#'int =v, [0x01, 0x02] __binary_concat__, ^ }}, {}", pump(n)))),
+        4 => ("server-stateful", Box::new(move |n| format!("srv = 0 @#'int {{ =acc, !#'int =m, [acc, m] __integer_add__ ^ }}, {}", pump(n)))),
+        5 => ("server-stateful-tuple", Box::new(move |n| format!("srv = [0, {k}] @#['int, 'int] {{ =[cnt, last], !#'int =m, [[cnt, 1] __integer_add__, m] ^ }}, {}", pump(n)))),
+        6 => ("server-nilary-nested-tail", Box::new(move |n| format!("srv = @#{{ !#'int =m, m {{ | =0 => Done | {{ t = [m, {k}] __integer_add__, t, ^ }} }} }}, {}", pump(n)))),
+        _ => ("server-nilary-filter", Box::new(move |n| format!("srv = @#{{ ! [#'int {{ [~, 0] __integer_compare__ =1 => Ok }}], ^ }}, {}", pump(n)))),
+    }
+}
+
+/// (pid, stack, locals, frames, status) of every process except the REPL's after the system went quiet.
+fn run_server(src: &str, b: &Builtins, iterations: u64) -> Result<Vec<(usize, usize, usize, usize, String)>, String> {
+    use qverif::sim::{EvalOutcome, Sim};
+    let src = src.to_string();
+    let b = b.clone();
+    qverif::catch(move || {
+        let mut sim = Sim::new(1, None, b, false).with_repl(HashMap::new());
+        let rounds = 400 + 40 * iterations as usize;
+        match qverif::sim::eval_in(&mut sim, &src, None, rounds) {
+            EvalOutcome::Value(_) => {}
+            other => return Err(format!("eval: {}", other.render())),
+        }
+        // let the server drain its mailbox
+        sim.run_fair(rounds, |s| s.quiescent());
+        let repl_pid = sim.repl.as_ref().map(|r| r.process_id()).unwrap_or(0);
+        Ok(sim
+            .processes()
+            .into_iter()
+            .filter(|(pid, _, _)| *pid != repl_pid)
+            .map(|(pid, _, info)| (pid, info.stack_size, info.locals_count, info.frames_count, format!("{:?}/mailbox={}", info.status, info.mailbox_size)))
+            .collect())
+    })
+    .unwrap_or_else(|p| Err(format!("panic: {}", p.lines().next().unwrap_or(""))))
+}
+
 struct Peaks {
     frames: usize,
     locals: usize,
@@ -387,11 +429,91 @@ fn main() {
         let _ = (&p100.result, &pn.result);
         ev.hit(&format!("hop:{}", if src_n.contains("^~") { "ripple" } else if src_n.contains("enter =") { "named" } else if src_n.contains("outer =") { "below-frames" } else { "direct" }));
     }
+    // message-driven server loops in the full system (deterministic simulator): the spawned
+    // process's stack / locals / frames after N and after 50N messages
+    let n_servers = opts.tier.pick(24u64, 400u64);
+    let mut server_files: Vec<(String, String)> = vec![];
+    if let Ok(d) = std::fs::read_dir("/verif/corpus/C16") {
+        let mut files: Vec<_> = d.filter_map(|e| e.ok()).map(|e| e.path()).collect();
+        files.sort();
+        for f in files {
+            if f.extension().and_then(|e| e.to_str()) == Some("srv") {
+                if let Ok(t) = std::fs::read_to_string(&f) {
+                    server_files.push((f.file_name().unwrap().to_string_lossy().to_string(), t));
+                }
+            }
+        }
+    }
+    let mut servers_checked = 0u64;
+    for i in 0..(server_files.len() as u64 + n_servers) {
+        let mut r = Rng::for_case(opts.seed ^ 0x5E7, i);
+        let n = 10 + r.below(12);
+        let (kind, make): (String, Box<dyn Fn(u64) -> String>) = if (i as usize) < server_files.len() {
+            let (name, text) = server_files[i as usize].clone();
+            (format!("corpus:{name}"), Box::new(move |n| text.replace("@N@", &n.to_string())))
+        } else {
+            let (k, m) = server_shape(&mut r);
+            (k.to_string(), m)
+        };
+        ev.hit(&format!("shape:{kind}"));
+        let (src_n, src_50) = (make(n), make(50 * n));
+        // the certificate (hypothesis of the theorems): the program as the REPL merges it
+        if let Ok(unit) = compile_source(&src_n, &HashMap::new(), &b) {
+            let bc = unit.program.to_bytecode(Some(unit.entry));
+            let t = tables_of(&bc);
+            let mut lines = prog_lines(&t);
+            lines.push("(annotate)".into());
+            let answers = model.ask_all(&lines);
+            if !answers.last().map(|a| a.starts_with("ok")).unwrap_or(false) {
+                ev.violation(&format!("shape={kind} kind=not-certified"), &format!("server shape {kind} is not certified by checkAnn: {:?}", answers.last()),
+                    json!({"broken": "C07 certificate (hypothesis of the C16 theorems)", "source_at_N": src_n}), false);
+            }
+        }
+        match (run_server(&src_n, &b, n), run_server(&src_50, &b, 50 * n)) {
+            (Ok(a), Ok(c)) => {
+                servers_checked += 1;
+                ev.case(&src_n, !a.is_empty());
+                ev.sample_sparse(i, 12, || json!({"kind": kind, "N": n, "source_at_N": src_n, "server_at_N": format!("{a:?}"), "server_at_50N": format!("{c:?}")}));
+                if a.len() != c.len() {
+                    ev.hit("server:process-count-differs");
+                    continue;
+                }
+                for ((pid, s1, l1, f1, st1), (_, s2, l2, f2, st2)) in a.iter().zip(c.iter()) {
+                    ev.hit(&format!("server:status:{}", st1.split('/').next().unwrap_or("?")));
+                    if st1 != st2 {
+                        ev.hit("server:status-differs");
+                    }
+                    for (what, x, y) in [("stack", s1, s2), ("locals", l1, l2), ("frames", f1, f2)] {
+                        if x != y {
+                            ev.violation(
+                                &format!("shape={kind} kind=server-{what}-grows"),
+                                &format!("server loop {kind}: process {pid} holds {x} {what} cells after {n} messages and {y} after {} ({st1} / {st2})", 50 * n),
+                                json!({"source_at_N": src_n, "source_at_50N": src_50, "N": n, "what": what, "at_N": x, "at_50N": y,
+                                       "process": pid, "status_N": st1, "status_50N": st2}),
+                                true,
+                            );
+                        }
+                    }
+                }
+            }
+            (a, c) => {
+                let why = [a.err(), c.err()].into_iter().flatten().next().unwrap_or_default();
+                ev.hit(&format!("server:skipped:{}", why.split(':').next().unwrap_or("?")));
+                ev.case(&src_n, false);
+                if why.starts_with("panic") {
+                    ev.violation(&format!("shape={kind} kind=server-run-panics"), &format!("server loop {kind}: {why}"),
+                        json!({"source_at_N": src_n, "why": why}), true);
+                }
+            }
+        }
+    }
+    ev.set_extra("server_loops_checked", json!(servers_checked));
     ev.set_extra("shapes", json!(total));
     ev.set_extra("tailcall_steps_replayed_in_model", json!(tailcalls_replayed));
     ev.set_extra("closed_form_samples_checked", json!(samples_checked));
     ev.set_extra("loop_reentries_observed", json!(reentries));
     ev.set_extra("model_requests", json!(model.requests));
+    println!("C16: {servers_checked} message-driven server loops;");
     println!("C16: {total} shapes, {reentries} loop re-entries observed, {tailcalls_replayed} TailCall steps replayed in the model, {samples_checked} closed-form samples");
     std::process::exit(ev.finish());
 }
